@@ -214,7 +214,7 @@ def run(ctx) -> None:
         continue
       if a.resource == 'trial' and a.pre is not None and b.pre is not None and not (a.pre & b.pre):
         continue  # typestate-disjoint: can never both be between read and write on one row
-      key = (a.rpc, b.rpc, a.resource, _short(a.write), _short(b.write), b.kind)
+      key = (a.rpc, b.rpc, a.resource, _short(a.write), _short(b.write), b.kind, tuple(sorted(a.locks)), tuple(sorted(b.locks)))
       if key in seen:
         continue
       seen.add(key)
@@ -314,6 +314,10 @@ def r4_lock_keys(ctx, svc: Svc, tables: Set[str]) -> None:
         if kinds is None:
           kinds = _name_kinds(ctx, svc, fi)
         key = unparse(e.slice, 0)
+        if isinstance(e.slice, ast.Tuple):
+          # a composite key can never be the key another RPC uses for the same rows
+          sites.append((d[5:], frozenset({f'composite of {len(e.slice.elts)} values'}), fi, n, key))
+          continue
         sites.append((d[5:], frozenset(kinds.get(key, set())), fi, n, key))
   if len(sites) < 12:
     raise AnalysisError(f'only {len(sites)} keyed lock acquisitions found (15 on the pinned tree)')
